@@ -55,6 +55,7 @@ package lexer
 //@   ensures result1 == nil ==> result0 != nil
 
 //@ func Upgrade [C12 C10 C15]
+//@   frame-tags C09
 //@   no-recursion
 //@   requires lex != nil
 //@   ensures result1 != nil ==> uf("lexer_error", "Bool", result1) [C06]
@@ -69,6 +70,7 @@ package lexer
 //@   loop 2 nonterminating-ok
 
 //@ func (*PeekingLexer).Range [C12 C11 C06]
+//@   frame-tags C09
 //@   requires 0 <= rawStart && rawStart <= rawEnd && rawEnd <= len(p.tokens)
 //@   pure
 //@   ensures len(result) == rawEnd - rawStart && result == p.tokens[rawStart:rawEnd]
@@ -82,17 +84,20 @@ package lexer
 //@   ensures result == c.rawCursor
 
 //@ func (*PeekingLexer).Peek [C12 C10 C11 C06]
+//@   frame-tags C09
 //@   requires plInv(p)
 //@   pure
 //@   ensures result != nil && result == &p.tokens[p.nextCursor]
 //@   ensures p.rawCursor <= p.nextCursor && forall(k, p.rawCursor, p.nextCursor, elidedAt(p, k)) && stopAt(p, p.nextCursor)
 
 //@ func (*PeekingLexer).RawPeek [C12 C11 C06]
+//@   frame-tags C09
 //@   requires plInv(p)
 //@   pure
 //@   ensures result != nil && result == &p.tokens[p.rawCursor]
 
 //@ func (*PeekingLexer).Next [C12 C10 C06 C11]
+//@   frame-tags C09
 //@   no-recursion
 //@   requires plInv(p)
 //@   modifies p.Checkpoint
@@ -103,6 +108,7 @@ package lexer
 //@   use cntSkip(p, old(p.rawCursor), old(p.nextCursor)) at entry
 
 //@ func (*PeekingLexer).advanceToNonElided [C12 C06 C11]
+//@   frame-tags C09
 //@   no-recursion
 //@   requires streamOK(p) && 0 <= p.rawCursor && p.rawCursor <= p.nextCursor && p.nextCursor <= eofIdx(p)
 //@   requires forall(k, p.rawCursor, p.nextCursor, elidedAt(p, k))
@@ -114,6 +120,7 @@ package lexer
 //@   loop 1 decreases eofIdx(p) - p.nextCursor
 
 //@ func (*PeekingLexer).PeekAny [C12 C10 C06]
+//@   frame-tags C09
 //@   no-recursion
 //@   requires plInv(p) && match != nil
 //@   ensures p.rawCursor <= rawCursor && rawCursor <= p.nextCursor && t == p.tokens[rawCursor]
@@ -124,6 +131,7 @@ package lexer
 //@   loop 1 decreases p.nextCursor - i
 
 //@ func (*PeekingLexer).FastForward [C12 C10 C06 C11]
+//@   frame-tags C09
 //@   no-recursion
 //@   requires plInv(p)
 //@   modifies p.Checkpoint
@@ -140,10 +148,12 @@ package lexer
 //@   loop 1 decreases eofIdx(p) - p.rawCursor
 
 //@ func (*PeekingLexer).MakeCheckpoint [C12]
+//@   frame-tags C09
 //@   pure
 //@   ensures result == p.Checkpoint
 
 //@ func (*PeekingLexer).LoadCheckpoint [C12]
+//@   frame-tags C09
 //@   requires streamOK(p) && ckOK(p, checkpoint)
 //@   modifies p.Checkpoint
 //@   ensures p.Checkpoint == checkpoint && plInv(p)
@@ -153,6 +163,7 @@ package lexer
 // ---------------------------------------------------------------------------------------------
 
 //@ func ConsumeAll [C07 C15]
+//@   frame-tags C09
 //@   no-recursion
 //@   requires lexer != nil
 //@   ensures result1 == nil ==> len(result0) >= 1 && result0[len(result0)-1].Type == EOF && forall(k, 0, len(result0)-1, result0[k].Type != EOF)
@@ -205,6 +216,7 @@ package lexer
 //@   ensures rcount(s[lastnl(s):]) == 1 + rcount(s[lastnl(s)+1:])
 
 //@ func (*Position).Advance [C04 C07 C06]
+//@   frame-tags C09
 //@   ghost in string
 //@   modifies *p
 //@   ensures p.Offset == old(p.Offset) + len(span) && p.Filename == old(p.Filename)
@@ -309,6 +321,7 @@ package lexer
 //@   before call lexer.New#1: assert foralls(s, has(arg0, s) ==> s == "Root")
 
 //@ func (*StatefulLexer).getPattern [C07 C03]
+//@   frame-tags C09
 //@   requires l.def != nil && len(l.stack) >= 1 && ruleOK(candidate)
 //@   ensures result1 == nil ==> result0 != nil && uf("re_anchored", "Bool", result0)
 //@   ensures candidate.RE != nil ==> result1 == nil && result0 == candidate.RE
@@ -320,16 +333,19 @@ package lexer
 //@   ensures result1 == nil ==> foralls(s, uf("re_matches", "Bool", result0, s) == uf("backref_matches", "Bool", input, groups, s))
 
 //@ func (ActionPop).applyAction [C07 C03]
+//@   frame-tags C09
 //@   implements Action.applyAction
 //@   ensures result == nil ==> len(lexer.stack) == len(old(lexer.stack)) - 1 && &lexer.stack[0] == &old(lexer.stack)[0]
 
 //@ func (ActionPush).applyAction [C07 C03]
+//@   frame-tags C09
 //@   implements Action.applyAction
 //@   ensures result == nil ==> len(lexer.stack) == len(old(lexer.stack)) + 1 && lexer.stack[len(lexer.stack)-1].name == p.State
 //@   ensures result == nil ==> lexer.stack[len(lexer.stack)-1].groups == groups
 //@   ensures result == nil ==> forall(k, 0, len(old(lexer.stack)), lexer.stack[k] == old(lexer.stack[k]))
 
 //@ func (*StatefulDefinition).LexString [C04 C07 C15]
+//@   frame-tags C09
 //@   ensures result1 == nil && typeis(result0, *StatefulLexer) && fresh(result0)
 //@   ensures rulesOK(d) ==> slInv(result0.(*StatefulLexer))
 //@   ensures posInv(result0.(*StatefulLexer), s, filename) && result0.(*StatefulLexer).pos == Position{filename, 0, 1, 1}
@@ -340,10 +356,12 @@ package lexer
 // The reader entry point lexes exactly the bytes read, under the caller's filename (C15: Lex, LexString
 // and LexBytes agree; C04: offsets refer to the caller's input). What io.Copy delivers is trusted.
 //@ func (*StatefulDefinition).Lex [C15 C04]
+//@   frame-tags C09
 //@   let content string = result0 after call (*strings.Builder).String#1
 //@   before call (*lexer.StatefulDefinition).LexString#1: assert arg1 == filename && arg2 == content
 
 //@ func (*StatefulLexer).Next [C07 C04 C03 C06]
+//@   frame-tags C09
 //@   no-recursion [C06 C07]
 //@   ensures @errshape result1 != nil ==> typeis(result1, *Error) [C06]
 //@   requires slInv(l)
@@ -383,6 +401,7 @@ package lexer
 // ---------------------------------------------------------------------------------------------
 
 //@ func (*textScannerLexer).Next [C04 C15]
+//@   frame-tags C09
 //@   requires t.scanner != nil
 //@   ensures result1 == nil ==> result0.Pos.Filename == t.filename
 //@   ensures result1 != nil ==> result1 == t.err && result0 == Token{}
